@@ -332,6 +332,12 @@ func (s *Sched) RunToEnd(t *Task) string {
 	for {
 		switch k := s.Step(t); k {
 		case "parked":
+			s.mu.Lock()
+			dead := t.state == tDead
+			s.mu.Unlock()
+			if dead {
+				return "crashed" // the task's process died under it
+			}
 			continue
 		default:
 			return k
@@ -345,6 +351,12 @@ func (s *Sched) RunDaemonCycle(t *Task) string {
 		k := s.Step(t)
 		if k != "parked" {
 			return k
+		}
+		s.mu.Lock()
+		dead := t.state == tDead
+		s.mu.Unlock()
+		if dead {
+			return "crashed"
 		}
 		if t.Idle {
 			return "idle"
